@@ -396,11 +396,14 @@ let pl_case id c =
 (* ------------------------------------------------------------------------------------------ *)
 (* run: Pipeline.Run observed as an operation list over instance numbers (harness/cmd/c08run) *)
 
-(* "=": as in the previous snapshot; "x": not read (the branch of the instance is deleted): taken as unchanged *)
-let resolve_x (prev : string array) (cur : sx list) : string array =
-  Array.of_list (List.mapi (fun k s -> match s with
-    | A "=" | A "x" -> if k < Array.length prev then prev.(k) else "?"
-    | s -> str s) cur)
+(* the snapshot lists of this stream are sparse: (k snapshot) for the instances whose snapshot changed; an instance
+   that is not listed is unchanged (or no longer read, its branch being deleted) *)
+let resolve_sparse (prev : string array) (n : int) (cur : sx list) : string array =
+  let a = Array.init n (fun k -> if k < Array.length prev then prev.(k) else "?") in
+  List.iter (fun e -> match e with
+    | L [k; s] -> let k = int_of_sx k in if k >= 0 && k < n then a.(k) <- str s
+    | _ -> ()) cur;
+  a
 
 let run_case id c =
   let size = z (3600 * int_of_sx (List.hd (args (field "size" c)))) in
@@ -428,17 +431,19 @@ let run_case id c =
     let kind = tag opsx in
     if !stop then () else begin
     let r = List.hd (args (field "r" ob)) and twin = List.hd (args (field "twin" ob)) in
-    let cur = resolve_x !prev (args (field "copies" ob)) in
-    let curm = resolve_x !prevm (args (field "prs" ob)) in
+    let nn = Array.of_list (List.map int_of_sx (args (field "n" ob))) in
+    let cur = resolve_sparse !prev nn.(0) (args (field "copies" ob)) in
+    let curm = resolve_sparse !prevm nn.(1) (args (field "prs" ob)) in
     let bl = args (field "bds" ob) in
     if !first_bd then begin
-      (* the burndown item is optional: its first snapshot is the reference *)
+      (* the burndown item is optional: the first snapshot of its first instance is the reference *)
       first_bd := false;
-      prevb := Array.of_list (List.mapi (fun k s -> if k = 0 then str s else "?") bl);
-      prevb := Array.sub !prevb 0 (min 1 (Array.length !prevb));
+      (match List.find_opt (fun e -> match e with L [A "0"; _] -> true | _ -> false) bl with
+       | Some (L [_; s0]) when nn.(2) > 0 -> prevb := [| str s0 |]
+       | _ -> prevb := [||]);
       logical := Array.copy !prevb
     end;
-    let curb = resolve_x !prevb bl in
+    let curb = resolve_sparse !prevb nn.(2) bl in
     let logb = Array.mapi (fun k s -> if is_hib s then (if k < Array.length !logical then !logical.(k) else "?") else s) curb in
     let has_bd = Array.length curb > 0 in
     let parts = (match kind with "merge" -> Array.to_list a | _ -> [target]) in
@@ -579,8 +584,8 @@ let run_case id c =
         if ms <> str sh then mismatch id (Printf.sprintf "%s shared tick0/registry: implementation %s model %s" here (str sh) ms)
       end
     end;
-    List.iteri (fun k f -> if not (bool_of_sx f) then
-      mismatch id (Printf.sprintf "%s instance %d does not see the same tick0/registry as the origin" here k)) (args (field "shsame" ob));
+    List.iter (fun k ->
+      mismatch id (Printf.sprintf "%s instance %s does not see the same tick0/registry as the origin" here (str k))) (args (field "shdiff" ob));
     prev := cur; prevm := curm; prevb := curb; logical := logb;
     if tag r = "err" || tag r = "panic" then stop := true
     end) obs;
@@ -588,15 +593,17 @@ let run_case id c =
   (match field_opt "final" o with
    | Some f when not !stop && args f <> [] ->
        let chk what prev l =
-         List.iteri (fun k s -> match s with
-           | A "=" | A "x" -> ()
-           | s -> if k < Array.length prev && not (is_hib prev.(k)) && str s <> prev.(k) then
-                    mismatch id (Printf.sprintf "at the end %s %d differs from what it last reported: before %s after %s" what k prev.(k) (str s))) l in
+         List.iter (fun e -> match e with
+           | L [k; s] ->
+               let k = int_of_sx k in
+               if k < Array.length prev && not (is_hib prev.(k)) && str s <> prev.(k) then
+                 mismatch id (Printf.sprintf "at the end %s %d differs from what it last reported: before %s after %s" what k prev.(k) (str s))
+           | _ -> ()) l in
        chk "instance" !prev (args (field "copies" f));
        chk "probe" !prevm (args (field "prs" f));
        chk "burndown instance" !prevb (args (field "bds" f));
-       List.iteri (fun k b -> if not (bool_of_sx b) then
-         mismatch id (Printf.sprintf "at the end instance %d does not see the same tick0/registry as the origin" k)) (args (field "shsame" f))
+       List.iter (fun k ->
+         mismatch id (Printf.sprintf "at the end instance %s does not see the same tick0/registry as the origin" (str k))) (args (field "shdiff" f))
    | _ -> ());
   if status <> "ok" && !n_propfail = pf0 && !n_mismatch = mm0 then
     mismatch id (Printf.sprintf "Pipeline.Run ends with %s although every observed operation agrees with the private twins" status);
